@@ -30,8 +30,17 @@ Oracle boundaries:
     behaviour is (so a rebuilt helper holding different scratch values is not a violation unless outputs differ);
   * the order of names in a grammar is not part of the statement (sorted names are compared);
   * MemoryFullCache(is_memory_shared=True) shares by documentation: not in the cache alphabet (noted in the evidence);
-  * two objects attached to one HDF5 node each keep a private hash table (by design of HDF5Cache.__setstate__); the
-    twins therefore get *distinct probe inputs never written by the other twin* ... see ``_HDF_NOTE`` below.
+  * HDF5: two live cache objects writing one node each keep a private hash table and the second writer of an index
+    fails - with or without pickling - so after a round-trip the restored object continues alone on the file and the
+    original is continued through an identical twin with a file of its own (``_HDF_NOTE`` in ``_disc_case``);
+  * an array over memory that no Python object owns (``foreign``) has undefined content and is not an observable
+    (MDAQuasiNewton leaves such views of MINPACK's work vector in the local data of its disciplines);
+  * an operation that raises the same exception type on the original and on the restored object is the same
+    behaviour (listed in the evidence: ``operations_raising_on_original_and_restored_alike``).
+
+Violation signatures: {invariant, cls, position of the round-trip, grammar, cache (+ stage / op)}; an axis on which every
+enumerated value fails is generalised to "any", the same violation in >= 4 classes is merged (cls = "many"), and a
+round-trip that raises is identified by the owner of the unpicklable leaf (``site``) instead of the class.
 """
 from __future__ import annotations
 
@@ -454,7 +463,7 @@ def _set_cache(d, cache, h5):
     if cache == "memF":
         d.set_cache(d.CacheType.MEMORY_FULL, is_memory_shared=False)
     elif cache == "hdf":
-        d.set_cache(d.CacheType.HDF5, hdf_file_path=h5, hdf_node_path="node")
+        d.set_cache(d.CacheType.HDF5, hdf_file_path=h5, hdf_node_path="grp/c20node")
     elif cache == "none":
         d.set_cache(d.CacheType.NONE)
 
@@ -613,7 +622,7 @@ def observe_problem(p, with_state=True):
     o = {"design_space": observe_design_space(p.design_space), "objective": p.objective.name if p.objective is not None else None,
          "minimize": p.minimize_objective, "constraints": tuple((c.name, str(c.f_type)) for c in p.constraints), "observables": tuple(f.name for f in p.observables),
          "differentiation_method": str(p.differentiation_method), "tolerances": val({"eq": p.tolerances.equality, "ineq": p.tolerances.inequality}),
-         "preprocessed": bool(getattr(p, "_OptimizationProblem__functions_are_preprocessed", getattr(p, "_EvaluationProblem__functions_are_preprocessed", None)))}
+         "preprocessed": bool(getattr(p, "_functions_are_preprocessed", None)), "functions": tuple((f.name, type(f).__name__) for f in p.functions)}
     if with_state:
         db = p.database
         o["database"] = val([[np.asarray(k.unwrap()), {n: v for n, v in d.items()}] for k, d in db.items()])
@@ -652,10 +661,6 @@ def static_violations(oa, ob, when):
             inv = "cache-content-differs"
         out.append((inv, f"{when}: {path}: original {x} != restored {y}"))
     return out
-
-
-class Subject:
-    """One built object + everything the case needs to know about it."""
 
 
 def _position(hist):
@@ -777,6 +782,7 @@ def _disc_case(case, tally):
                     if r0[1] != rk[1]:
                         bad("different-exception", f"{op} (step {step}): original raises {r0[2]}, restored twin {k} raises {rk[2]}", op=op[0])
                     raised_both = True
+                    tally.sets.setdefault("raises_on_both", set()).add(f"{name}: {op}: {r0[2][:90]}")
                 elif r0[0] != rk[0]:
                     who = "restored" if rk[0] == "raise" else "original"
                     bad("restored-raises" if rk[0] == "raise" else "original-raises-restored-does-not", f"{op} (step {step}) raises on the {who} object only: {(rk if rk[0] == 'raise' else r0)[2]}", op=op[0])
@@ -932,21 +938,31 @@ ITER_TOL = {"default": 100 * R.MDA_TOL, "SobieskiMDAGaussSeidel": 100 * 1e-6, "S
 def disc_cases(ctx, catalog):
     """The enumerated (configuration x history) product.  Bound per configuration class (reported in the evidence):
 
-    quick     default grammar x {Simple, MemoryFull}: every word with one round-trip and <= 2 other operations (68);
-              default grammar x HDF5 and every other grammar type x every cache: one round-trip and <= 1 other operation (14)
-    thorough  every word of length <= 3 with one or two round-trips (116) for every grammar x cache (+ no cache), plus, for the
-              default grammar x {Simple, MemoryFull}, every word with one round-trip and exactly 3 other operations (216)
+    quick     default grammar x SimpleCache (the default policy): every word with one round-trip and <= 2 other operations (68);
+              default grammar x {MemoryFull, HDF5} and every other grammar type x every cache: one round-trip and <= 1 other
+              operation (14) - followed, as always, by the probes execute(new input), linearize(v1), i.e. depth 3-4 in effect
+    thorough  SimpleCache x every grammar type: every word of length <= 3 with one or two round-trips (108), plus, for the
+              default grammar, every word with one round-trip and exactly 3 other operations (216, depth 4);
+              default grammar x MemoryFull: the 108 words; default grammar x {HDF5, no cache}: the 68 words;
+              other grammar types x {MemoryFull, HDF5, no cache}: the 14 words
     (an HDF5 case costs ~10x a Simple one: every cache access opens the file and talks to the manager process)
     """
     scales = list(ctx.pick(SCALESETS))
+    h_one, h_short = histories(2, 1), histories(1, 1)
     if ctx.thorough:
         h_main = histories(2, 2, max_len=3)
         h_deep = [h for h in histories(3, 1) if len(h) == 4]
-        plan = lambda default, cache: h_main + (h_deep if default and cache in ("simple", "memF") else [])  # noqa: E731
+
+        def plan(default, cache):
+            if cache == "simple":
+                return h_main + (h_deep if default else [])
+            if default:
+                return h_main if cache == "memF" else h_one
+            return h_short
+
         caches = CACHES + ["none"]
     else:
-        h_full, h_short = histories(2, 1), histories(1, 1)
-        plan = lambda default, cache: h_full if default and cache in ("simple", "memF") else h_short  # noqa: E731
+        plan = lambda default, cache: h_one if default and cache == "simple" else h_short  # noqa: E731
         caches = CACHES
     first = {}
     for info in catalog:
@@ -968,11 +984,209 @@ def disc_cases(ctx, catalog):
     return cases
 
 
+
+# ======================================================================================================
+# parts F, P, S: the same engine behind an adapter (props/_c20_twins.py)
+# ======================================================================================================
+def _adapter(case):
+    from props import _c20_twins as T
+
+    helpers = {"observe": observe, "observe_design_space": observe_design_space, "observe_problem": observe_problem, "observe_scenario": observe_scenario}
+    part, subject = case["part"], case["subject"]
+    if part == "F":
+        return T.FunctionAdapter(val, helpers)
+    if part == "S":
+        return T.ScenarioAdapter(val, helpers)
+    return T.DesignSpaceAdapter(val, helpers) if subject.startswith("DesignSpace/") else T.ProblemAdapter(val, helpers)
+
+
+_BOTH_RAISE = set()
+
+
+def _try(fn, *a):
+    try:
+        return ("ok", _snap_out(fn(*a)))
+    except Exception as e:  # noqa: BLE001
+        return ("raise", type(e).__name__, f"{type(e).__name__}: {str(e)[:300]}")
+
+
+def _snap_any(o):
+    if isinstance(o, (list, tuple)):
+        return [_snap_any(x) for x in o]
+    return _snap_out(o)
+
+
+def _cmp_results(r0, rk, tol, label, bad, opk):
+    """Compare the outcome of one operation on the original (r0) and on a restored twin (rk)."""
+    if r0[0] == "raise" and rk[0] == "raise":
+        _BOTH_RAISE.add(f"{label.split(' on restored')[0].split(' (step')[0]}: {r0[2][:90]}")
+        if r0[1] != rk[1]:
+            bad("different-exception", f"{label}: original raises {r0[2]}, restored raises {rk[2]}", op=opk)
+        return "both-raise"
+    if r0[0] != rk[0]:
+        bad("restored-raises" if rk[0] == "raise" else "original-raises-restored-does-not", f"{label} raises on one object only: {(rk if rk[0] == 'raise' else r0)[2]}", op=opk)
+        return "bad"
+    a, b = _val_tree(r0[1]), _val_tree(rk[1])
+    if a == b:
+        return "same"
+    if tol and _close_tree(r0[1], rk[1], tol):
+        return "within-tolerance"
+    dd = diff(a, b, limit=4)
+    if not dd:
+        return "same"
+    bad("restored-output-differs" if opk != "L" else "restored-jacobian-differs", f"{label}: " + "; ".join(f"{p}: original {x} restored {y}" for p, x, y in dd), op=opk)
+    return "bad"
+
+
+def _close_tree(a, b, tol):
+    if isinstance(a, Mapping) and isinstance(b, Mapping):
+        return set(a) == set(b) and all(_close_tree(a[k], b[k], tol) for k in a)
+    if isinstance(a, (list, tuple)) and isinstance(b, (list, tuple)):
+        return len(a) == len(b) and all(_close_tree(x, y, tol) for x, y in zip(a, b))
+    if isinstance(a, float) and isinstance(b, float):
+        return abs(a - b) <= tol * (1 + abs(a))
+    return close(a, b, tol)
+
+
+def _twin_case(case, tally):
+    """Parts F / P / S: one history on one object kind."""
+    ad = _adapter(case)
+    hist, tol = case["hist"], case.get("tol", 0.0)
+    scratch = case.get("scratch") or _SCRATCH
+    i_rt = next(k for k, op in enumerate(hist) if op in RTS)
+    position = ad.position(hist[i_rt - 1] if i_rt else None)
+    base = {"cls": ad.cls(case), "position": position, **ad.config(case)}
+    found = []
+
+    def bad(inv, msg, **extra):
+        found.append((inv, extra, msg))
+
+    outcome, n_tr = "ok", 0
+    old = _set_grammar(case.get("grammar", "JSONGrammar"))
+    try:
+        obj = ad.build(case)
+        twins = [obj]
+        for step, op in enumerate(hist):
+            if op in RTS:
+                src = twins[-1]
+                try:
+                    new = roundtrip(src, op, scratch)
+                except Exception as e:  # noqa: BLE001
+                    b = blame(src)
+                    bad("round-trip-raises", f"{op} ({position}) raises {type(e).__name__}: {str(e)[:200]}; unpicklable part: {b}", site=site_of(b), error=type(e).__name__)
+                    outcome = "round-trip-raises"
+                    break
+                n_tr += 1
+                for inv, msg in static_violations(ad.observe(src), ad.observe(new), f"right after {op}"):
+                    bad(inv, msg)
+                twins.append(new)
+                continue
+            results = [_try(ad.do, t, op, case) for t in twins]
+            n_tr += len(twins)
+            for k, rk in enumerate(results[1:], 1):
+                r = _cmp_results(results[0], rk, tol, f"{op} (step {step}) on restored twin {k}", bad, op[0])
+                if r == "within-tolerance":
+                    outcome = "ok-within-iteration-tolerance"
+                elif r == "both-raise" and outcome == "ok":
+                    outcome = "ok-some-operation-raises-on-both"
+        else:
+            if len(twins) > 1:
+                o, r = twins[0], twins[-1]
+                exact = tol == 0.0
+                for t in twins[1:]:
+                    for inv, msg in static_violations(ad.observe(o, exact, False), ad.observe(t, exact, False), "after the same later operations"):
+                        bad(inv, msg)
+                for op in ad.probes:
+                    r0, r1 = _try(ad.do, o, op, case), _try(ad.do, r, op, case)
+                    n_tr += 2
+                    res = _cmp_results(r0, r1, tol, f"probe {op}", bad, op[0])
+                    if res == "within-tolerance":
+                        outcome = "ok-within-iteration-tolerance"
+                shared, allowed = shared_objects(o, r)
+                for why, tn in allowed:
+                    tally.sets.setdefault("aliasing_allowed", set()).add(f"{why}: {tn}")
+                for pa, pb, tn, note in shared[:5]:
+                    bad("shared-mutable-object", f"the same {tn} object is reachable from the original at {pa} and from the restored object at {pb} {note}", what=tn, where=_generic_path(pa))
+                before = ad.observe(o, True, False)
+                canon_r = digest(repr(ad.observe(r, True, False)))
+                try:
+                    ad.mutate(r, case)
+                except Exception as e:  # noqa: BLE001
+                    tally.count(f"mutation-step-refused:{type(e).__name__}")
+                for p_, x, y in diff(before, ad.observe(o, True, False))[:4]:
+                    bad("mutating-the-restored-object-changes-the-original", f"{p_}: {x} -> {y}")
+                tally.sets.setdefault("states", set()).update({digest(repr(before)), canon_r})
+    finally:
+        _restore_grammar(old)
+    if found and outcome != "round-trip-raises":
+        outcome = "violation"
+    part = case["part"]
+    for b in _BOTH_RAISE:
+        tally.sets.setdefault("raises_on_both", set()).add(f"{case['subject']}: {b}")
+    _BOTH_RAISE.clear()
+    tally.case((part, case["subject"], case.get("stage"), case.get("grammar"), case.get("cache"), tuple(hist)), nontrivial=any(op not in RTS for op in hist), outcome=f"{part}:{outcome}",
+               sample={k: case[k] for k in ("part", "subject", "stage", "grammar", "cache", "hist") if k in case} if len(hist) == 3 else None)
+    tally.traces += 1
+    tally.transitions += n_tr
+    for inv, extra, msg in found:
+        sig = {"invariant": inv, **extra} if inv == "round-trip-raises" else {"invariant": inv, **base, **extra}
+        tally.sets.setdefault("subjects:" + _fixed_key(sig), set()).add(case["subject"])
+        tally.violation(sig, case, f"{inv}: {case['subject']} {ad.config(case)} history {hist}: {msg}")
+
+
+def words(ops, n_other, max_rt=1, max_len=None):
+    out = []
+    for L in range(1, n_other + max_rt + 1):
+        if max_len and L > max_len:
+            break
+        for w in itertools.product(list(ops) + RTS, repeat=L):
+            nr = sum(1 for x in w if x in RTS)
+            if 1 <= nr <= max_rt and L - nr <= n_other:
+                out.append(list(w))
+    return out
+
+
+def twin_cases(ctx, only):
+    from props import _c20_twins as T
+
+    X = ctx.pick(T.XSETS)
+    full = words(OPS, 2, 1) if not ctx.thorough else words(OPS, 2, 2, max_len=3) + [h for h in words(OPS, 3, 1) if len(h) == 4]
+    short = words(OPS, 1, 1) if not ctx.thorough else words(OPS, 2, 2, max_len=3)
+    cases = []
+    if "F" in only:
+        for name in T.FUNCS:
+            cases += [{"part": "F", "subject": name, "hist": h, "X": X} for h in full]
+    if "P" in only:
+        for kind in ("float", "mixed", "novalue", "ParameterSpace"):
+            cases += [{"part": "P", "subject": f"DesignSpace/{kind}", "hist": h, "X": X} for h in full]
+        for kind in T.PROBLEM_KINDS:
+            for stage in T.STAGES:
+                hs = full if kind == "base" else short
+                cases += [{"part": "P", "subject": f"OptimizationProblem/{kind}", "stage": stage, "hist": h, "X": X} for h in hs]
+    if "S" in only:
+        sw_one = words(("X",), 2, 1)
+        sw_full = sw_one if not ctx.thorough else words(("X",), 2, 2, max_len=3) + [h for h in words(("X",), 3, 1) if len(h) == 4]
+        sw_short = [h for h in sw_one if "RF" not in h] if not ctx.thorough else sw_one
+        for name in T.SCENARIOS:
+            tol = 1e-6 if name in T.ITERATIVE_SCENARIOS else 0.0
+            for g in (GRAMMARS_THOROUGH if ctx.thorough else GRAMMARS_QUICK):
+                if g == "PydanticGrammar":
+                    continue
+                for cache in ("simple", "memF"):
+                    hs = sw_full if (g == "JSONGrammar" and cache == "simple") else sw_short
+                    cases += [{"part": "S", "subject": name, "grammar": g, "cache": cache, "hist": h, "tol": tol} for h in hs]
+    cases.sort(key=lambda c: (len(c["hist"]), c["part"]))
+    return cases
+
+
 # ======================================================================================================
 # aggregation of raw violations: one signature per defect site
 # ======================================================================================================
+AXES = ("position", "grammar", "cache", "stage")
+
+
 def _fixed_key(sig):
-    return repr(sorted((k, str(x)) for k, x in sig.items() if k not in ("position", "grammar", "cache") or "cls" not in sig))
+    return repr(sorted((k, str(x)) for k, x in sig.items() if k not in AXES or "cls" not in sig))
 
 
 def aggregate(raw, tally, axes_values):
@@ -985,12 +1199,13 @@ def aggregate(raw, tally, axes_values):
             key = tuple(sorted((k, str(x)) for k, x in sig.items()))
             g = groups.setdefault(key, {"fixed": dict(sig), "members": [], "axes": None})
         else:
-            fixed = {k: x for k, x in sig.items() if k not in ("position", "grammar", "cache")}
+            fixed = {k: x for k, x in sig.items() if k not in AXES}
             key = tuple(sorted((k, str(x)) for k, x in fixed.items()))
-            g = groups.setdefault(key, {"fixed": fixed, "members": [], "axes": {"position": set(), "grammar": set(), "cache": set()}})
+            g = groups.setdefault(key, {"fixed": fixed, "members": [], "axes": {a: set() for a in AXES if a in sig}})
             for a in g["axes"]:
                 g["axes"][a].add(sig.get(a))
         g["members"].append(v)
+    merged = []
     for g in groups.values():
         first = g["members"][0]
         sig = dict(g["fixed"])
@@ -1001,8 +1216,23 @@ def aggregate(raw, tally, axes_values):
                 sig[a] = "any" if (allv and vals >= allv and len(allv) > 1) else "|".join(sorted(str(x) for x in vals))
         n = sum(m["count"] for m in g["members"])
         subjects = sorted(raw.sets.get("subjects:" + _fixed_key(first["signature"]), ()) or {str(m["case"].get("subject")) for m in g["members"] if isinstance(m["case"], dict)})
-        tally.violation(sig, first["case"], first["message"] + f"\n  [{n} failing case(s); subjects: {', '.join(subjects[:40])}]")
-        tally.violations[next(reversed(tally.violations))]["count"] = n
+        merged.append([sig, first, n, subjects])
+    # the same violation in many classes is one finding about their common base: one signature, classes listed
+    by_shape = {}
+    for item in merged:
+        by_shape.setdefault(sigkey_without_cls(item[0]), []).append(item)
+    for items in by_shape.values():
+        if len(items) >= 4 and "cls" in items[0][0]:
+            sig = {**items[0][0], "cls": "many"}
+            classes = sorted({i[0]["cls"] for i in items})
+            items = [[sig, items[0][1], sum(i[2] for i in items), classes]]
+        for sig, first, n, subjects in items:
+            tally.violation(sig, first["case"], first["message"] + f"\n  [{n} failing case(s); subjects: {', '.join(subjects[:60])}]")
+            tally.violations[next(reversed(tally.violations))]["count"] = n
+
+
+def sigkey_without_cls(sig):
+    return repr(sorted((k, str(v)) for k, v in sig.items() if k != "cls"))
 
 
 def run(ctx):
@@ -1047,11 +1277,27 @@ def run(ctx):
                        "histories_per_configuration": {"min": min(map(len, per_cfg.values())), "max": max(map(len, per_cfg.values()))},
                        "max_history_length": max(len(c["hist"]) for c in cases), "plan": disc_cases.__doc__.split("\n\n")[1].strip() if disc_cases.__doc__ else ""}
         pmap(_disc_case, cases, raw, jobs=ctx.jobs, chunk=24, timeout=600)
+    rest = "".join(c for c in only.split(":")[0] if c in "FPS")
+    if rest:
+        cases2 = twin_cases(ctx, rest)
+        for c in cases2:
+            ad_cls = c["subject"] if c["part"] != "F" else "MDOFunction:" + c["subject"]
+            i_rt = next(k for k, op in enumerate(c["hist"]) if op in RTS)
+            axes_values.setdefault((ad_cls, "position"), set()).add(_adapter(c).position(c["hist"][i_rt - 1] if i_rt else None))
+            for a in ("grammar", "cache", "stage"):
+                if a in c:
+                    axes_values.setdefault((ad_cls, a), set()).add(c[a])
+        for part in rest:
+            sub = [c for c in cases2 if c["part"] == part]
+            bounds[part] = {"subjects": len({c["subject"] for c in sub}), "configurations": len({(c["subject"], c.get("stage"), c.get("grammar"), c.get("cache")) for c in sub}),
+                            "cases": len(sub), "max_history_length": max(len(c["hist"]) for c in sub)}
+        pmap(_twin_case, cases2, raw, jobs=ctx.jobs, chunk=12, timeout=600)
     aggregate(raw, tally, axes_values)
     raw.violations = {}
     tally.merge(raw)
     tally.states += len(tally.sets.get("states", ()))
     tally.notes["aliasing_allowed"] = sorted(tally.sets.get("aliasing_allowed", ()))
+    tally.notes["operations_raising_on_original_and_restored_alike"] = sorted(tally.sets.get("raises_on_both", ()))[:60]
     return {
         "level": LEVEL,
         "rule": "every word over {execute(v1), execute(v2), linearize(v1), pickle round-trip, to_pickle/from_pickle} within the bound, on every buildable "
@@ -1072,4 +1318,6 @@ def replay(case, ctx):
     part = case.get("part", "D")
     if part == "D":
         _disc_case(case, t)
+    else:
+        _twin_case(case, t)
     return {"outcomes": dict(t.outcomes), "violations": [v["message"] for v in t.violations.values()]}
